@@ -65,6 +65,9 @@ class StubGP:
             q = self.floor * 1e5 / 8
             h = np.maximum(q, np.round(h / q) * q)
         h = np.maximum(self.floor, h)
+        if self.mode == "flat" and self.shape == "rect":
+            h = h.copy()
+            h[self.needle_axis[0]] = 0.0  # zero width in one objective: a valid (degenerate) rectangle
         if self.shape == "ell":
             # axis ratio capped at 1e3 (covariance condition number 1e6): beyond that sqrtm(inv(Sigma)) in the real
             # predicates is numerically meaningless (same limit as the direct C09/C10 workloads)
